@@ -139,7 +139,7 @@ theorem eqRange_sim {sh : Shared} {Ref : String → Prop} (diff : Differ) (hd : 
   induction ks with
   | nil =>
     intro st vg hI hS _
-    exact ⟨st, vg, rfl, hI, hS, GMono.refl st, fun _ h => by cases h, fun _ _ => Step.refl sh st vg⟩
+    exact ⟨st, vg, rfl, hI, hS, GMono.refl st, (fun _ h => by cases h), fun _ _ => Step.refl sh st vg⟩
   | cons k ks ih =>
     intro st vg hI hS hsh
     obtain ⟨a1, a2, b1, b2⟩ := hsh k (by simp)
@@ -177,7 +177,7 @@ theorem rulePhase1_sim {sh : Shared} {Ref : String → Prop} (diff : Differ) (hd
   induction rs with
   | nil =>
     intro st vg d ins hI hS _ _ _
-    exact ⟨st, vg, d, by simp [insGroupsFrom], hI, hS, GMono.refl st, fun _ h => by simp [eqPairs] at h,
+    exact ⟨st, vg, d, by simp [insGroupsFrom], hI, hS, GMono.refl st, (fun _ h => by simp [eqPairs] at h),
       fun _ _ => Step.refl sh st vg⟩
   | cons r rs ih =>
     intro st vg d ins hI hS hAr hBr hbd
@@ -303,7 +303,7 @@ theorem rulePhase2_sim {sh : Shared} {Ref : String → Prop} (B : List Rule) (vg
   induction gs with
   | nil =>
     intro st hI hS _
-    exact ⟨st, rfl, hI, hS, GMono.refl st, fun _ h => by cases h,
+    exact ⟨st, rfl, hI, hS, GMono.refl st, (fun _ h => by cases h),
       fun _ _ => by simp only [phase2Cmds, List.flatMap_nil]; exact Step.refl sh st vg⟩
   | cons g gs ih =>
     intro st hI hS hBr
@@ -319,7 +319,7 @@ theorem rulePhase2_sim {sh : Shared} {Ref : String → Prop} (B : List Rule) (vg
       induction l with
       | nil =>
         intro s hI hS _
-        exact ⟨s, rfl, hI, hS, GMono.refl s, fun _ h => by cases h, fun _ _ => Step.refl sh s vg⟩
+        exact ⟨s, rfl, hI, hS, GMono.refl s, (fun _ h => by cases h), fun _ _ => Step.refl sh s vg⟩
       | cons ru l ihl =>
         intro s hIs hSs hl
         obtain ⟨b1, b2⟩ := hl ru (by simp)
